@@ -75,7 +75,7 @@ uint32_t Tape::Raw(int stream) {
   if (replay) { p++; return 0; }
   auto it = rng.find(stream);
   if (it == rng.end()) {
-    uint64_t s = seed ^ (0xa0761d6478bd642full * (uint64_t)(stream + 1));
+    uint64_t s = (stream == 0 && scen_seed ? scen_seed : seed) ^ (0xa0761d6478bd642full * (uint64_t)(stream + 1));
     it = rng.emplace(stream, Rng(s)).first;
   }
   uint32_t r = (uint32_t)(it->second.Next() >> 32);
